@@ -25,10 +25,11 @@ type Params struct {
 	Slow                     bool
 	LateSub                  bool // a fourth subscriber {a,b} is started by the publisher after its first message
 	Racing                   bool // publishing starts at once instead of after the three subscriptions reached Joe's loop
+	TwoPubs                  bool // the messages are split between two publisher threads (odd / even)
 }
 
 func (p Params) Name() string {
-	return fmt.Sprintf("fail%d@%d-put%d/%d-replay%d/%d-msgs%d-slow%v-late%v-racing%v-ob%d", p.FailSub, p.FailAt, p.PutFailAt, p.PutKind, p.ReplayFailAt, p.ReplayKind, p.NMsg, p.Slow, p.LateSub, p.Racing, p.Orders)
+	return fmt.Sprintf("fail%d@%d-put%d/%d-replay%d/%d-msgs%d-slow%v-late%v-racing%v-ob%d", p.FailSub, p.FailAt, p.PutFailAt, p.PutKind, p.ReplayFailAt, p.ReplayKind, p.NMsg, p.Slow, p.LateSub, p.Racing, p.Orders) + map[bool]string{true: "-twopubs", false: ""}[p.TwoPubs]
 }
 
 type world struct {
@@ -87,16 +88,35 @@ func body(p Params) func() {
 				vrt.Recv(w.R.Reg) // Joe has taken the subscription into his loop (he registers it before his next receive)
 			}
 		}
-		pub := vrt.GoNamed("P", func() {
-			for k, r := range recs {
-				r.Err = j.Publish(jh.Msg(r.Tag, ""), r.Topics)
-				r.Returned = true
-				if k == 0 && p.LateSub {
-					startSub(3)
+		var pubs []vrt.Handle
+		if p.TwoPubs {
+			for pi := 0; pi < 2; pi++ {
+				var mine []*jo.Msg
+				for k, r := range recs {
+					if k%2 == pi {
+						r.Pub, r.Seq = pi, k/2
+						mine = append(mine, r)
+					}
 				}
+				pubs = append(pubs, vrt.GoNamed(fmt.Sprintf("P%d", pi+1), func() {
+					for _, r := range mine {
+						r.Err = j.Publish(jh.Msg(r.Tag, ""), r.Topics)
+						r.Returned = true
+					}
+				}))
 			}
-		})
-		vrt.Join(pub)
+		} else {
+			pubs = append(pubs, vrt.GoNamed("P", func() {
+				for k, r := range recs {
+					r.Err = j.Publish(jh.Msg(r.Tag, ""), r.Topics)
+					r.Returned = true
+					if k == 0 && p.LateSub {
+						startSub(3)
+					}
+				}
+			}))
+		}
+		vrt.Join(pubs...)
 		w.Shut = j.Shutdown(context.Background())
 		vrt.Join(subs...)
 	}
@@ -290,6 +310,18 @@ func Scenarios(tier string) []run.Scenario {
 			add(Params{FailSub: f, FailAt: 1, PutFailAt: sc.pa, PutKind: sc.pk, ReplayFailAt: sc.ra, ReplayKind: sc.rk, NMsg: 2, Racing: true})
 		}
 	}
+	// two publishers at once: every Publish gets the outcome of its own Put
+	for k := 1; k <= 3; k++ {
+		for kind := 0; kind <= 1; kind++ {
+			for _, n := range []int{2, 4} {
+				if n == 4 && tier != "thorough" && k == 3 {
+					continue
+				}
+				add(Params{PutFailAt: k, PutKind: kind, NMsg: n, TwoPubs: true})
+			}
+		}
+	}
+	add(Params{NMsg: 4, TwoPubs: true})
 	// a failure during the replay through a real replayer
 	for _, valid := range []bool{false, true} {
 		for _, auto := range []bool{false, true} {
@@ -317,7 +349,7 @@ func Scenarios(tier string) []run.Scenario {
 
 var Check = &run.Check{
 	ID: "C17", Level: "model_checking",
-	Rule: "Scenarios: three subscribers on {a}, {a,b}, {b} (optionally a fourth arriving later), one of which fails at its k-th Send/Flush call (subscriber and k enumerated), a publisher with 3-4 messages on a / a,b / b, and a recording replayer whose k-th Put or Replay returns an error or panics (enumerated); all interleavings (unbounded, state-key pruning); map iteration: all orders in the racing scenarios, and in the phased ones every permutation in up to 1 (thorough 2) fan-outs per execution with the canonical order elsewhere (ob in the scenario name), so the failing subscriber is visited first, in the middle and last in the fan-out that fails.",
+	Rule: "Scenarios: three subscribers on {a}, {a,b}, {b} (optionally a fourth arriving later), one of which fails at its k-th Send/Flush call (subscriber and k enumerated), a publisher with 3-4 messages on a / a,b / b (or two publishers sharing them), and a recording replayer whose k-th Put or Replay returns an error or panics (enumerated); all interleavings (unbounded, state-key pruning); map iteration: all orders in the racing scenarios, and in the phased ones every permutation in up to 1 (thorough 2) fan-outs per execution with the canonical order elsewhere (ob in the scenario name), so the failing subscriber is visited first, in the middle and last in the fan-out that fails.",
 	Assumptions: []string{
 		"schedules are explored at the granularity of synchronisation operations under sequential consistency (DESIGN.md 2.1)",
 		"for a subscriber that registers after the replayer has panicked there is no registration witness: only exactly-once, order, topic matching and gap-freedom after its first message are checked for it",
